@@ -163,3 +163,27 @@ macro_rules! vdump {
 }
 #[allow(unused_imports)]
 pub(crate) use vdump;
+
+/// `crate::vassert!(cond, "label")`: a plain `assert!` under Kani; in the native replay build a failed
+/// obligation is printed and recorded but execution continues, so one replay shows every violated label
+/// (the replay dispatcher panics at the end if anything was recorded).
+#[cfg(verif_replay)]
+pub(crate) static VERIF_VIOLATED: core::sync::atomic::AtomicBool = core::sync::atomic::AtomicBool::new(false);
+#[cfg(verif_replay)]
+macro_rules! vassert {
+    ($c:expr, $m:expr) => {{
+        if !($c) {
+            extern crate std as vassert_std;
+            vassert_std::eprintln!("VIOLATED {} at {}:{}", $m, file!(), line!());
+            crate::VERIF_VIOLATED.store(true, core::sync::atomic::Ordering::SeqCst);
+        }
+    }};
+}
+#[cfg(not(verif_replay))]
+macro_rules! vassert {
+    ($c:expr, $m:expr) => {{
+        assert!($c, $m);
+    }};
+}
+#[allow(unused_imports)]
+pub(crate) use vassert;
